@@ -8,6 +8,7 @@ mod c04;
 mod ast;
 mod c01;
 mod c05;
+mod c06;
 
 use proto::Recorder;
 use std::path::PathBuf;
@@ -51,6 +52,7 @@ fn main() {
         }
         "C01" => c01::run(&mut rec, &mut w, &tier, seed),
         "C05" => c05::run(&mut rec, &mut w, &tier, seed),
+        "C06" => c06::run(&mut rec, &mut w, &tier, seed),
         "C02" => c02::run(&mut rec, &mut w, &tier, seed),
         "C03" => c03::run(&mut rec, &mut w, &tier, seed),
         "C04" => c04::run(&mut rec, &mut w, &tier, seed),
